@@ -16,7 +16,7 @@ from spec import ops
 from . import source, types as ty
 from .values import (ADict, AList, ASet, BoundMethod, BreakSignal, ClassRef, ContinueSignal, Env, FStr,
                      ModRef, OMap, Opaque, OutOfSubset, PathEnd, PyRaise, ReturnSignal, SClosure, SFun,
-                     SObj, fresh_name)
+                     SObj, UMap, fresh_name)
 
 FEAS_TIMEOUT_MS = 3000
 
@@ -265,6 +265,11 @@ class Exec:
             return s
         if isinstance(t, ty.TRecord):
             return {k: self.mk(ft, f"{name}[{k}]", register) for k, ft in t.fields}
+        if isinstance(t, ty.TUnionMap):
+            ks = sort_of(t.key)
+            self.assumptions_used.add("object values of int-or-object dicts are unconstrained objects per lookup")
+            return UMap(name, z3.Array(name + "#has", ks, z3.BoolSort()), z3.Array(name + "#isint", ks, z3.BoolSort()),
+                        z3.Array(name + "#int", ks, z3.IntSort()), ks, t.obj)
         if isinstance(t, ty.TObjMap):
             self.assumptions_used.add("lookups in dict-of-objects fields are over-approximated by unconstrained objects")
             return OMap(name, t.val)
@@ -347,7 +352,7 @@ class Exec:
             raise OutOfSubset(f"class attribute {obj.name}.{attr}")
         if isinstance(obj, NS):
             return getattr(obj, attr)
-        if isinstance(obj, (AList, ADict, ASet, OMap, list, dict, set, frozenset, tuple, str)) or (
+        if isinstance(obj, (AList, ADict, ASet, OMap, UMap, list, dict, set, frozenset, tuple, str)) or (
             is_z3(obj) and z3.is_string(obj)
         ):
             return BoundMethod(obj, attr)
@@ -734,6 +739,8 @@ class Exec:
             return ops.Or(*rs) if rs else False
         if isinstance(container, ADict):
             return z3.Select(container.present, lift(item))
+        if isinstance(container, UMap):
+            return z3.Select(container.present, lift(item))
         if isinstance(container, OMap):
             b = z3.Bool(fresh_name(container.name + "#has"))
             container.tests.append((item, b))
@@ -858,6 +865,13 @@ class Exec:
             obj.__dict__.setdefault("_entry", {})[attr] = v.copy()
 
     def getitem(self, base, idx):
+        if isinstance(base, UMap):
+            k = lift(idx)
+            if not self.branch(z3.Select(base.present, k), label="key-present"):
+                raise PyRaise("KeyError")
+            if self.branch(z3.Select(base.isint, k), label="value-is-int"):
+                return z3.Select(base.ival, k)
+            return self.mk(base.obj_type, fresh_name(base.name + "[]"), register=True)
         if isinstance(base, OMap):
             has = None
             for k, b in reversed(base.tests):  # a membership test of the same key term decides presence
